@@ -215,6 +215,17 @@ def run (ctx):
     w_q = [w for w in ast.walk(dsend.node) if isinstance(w, ast.With) and any(x is qst[0].ast for x in ast.walk(w))]
     same = bool(w_flag) and bool(w_q) and w_flag[-1] is w_q[-1]
     ctx.ob('R-LOCK', dsend, "flag and queue are updated in one critical section", same, "same `with` block" if same else "flag and queue are updated in different critical sections", dsend, 'D4')
+  # the flag covers *all* connections: it is cleared nowhere but in the flush loop, under the empty-map test (dropping one connection's
+  # queue says nothing about the others)
+  dsc_ = drun.cls
+  for f_ in dsc_.methods.values():
+    if f_ is drun or f_.name == '__init__': continue
+    for t, v, s_, k in q.stores_in(f_.node):
+      if norm(t) == 'self.sending' and isinstance(v, ast.Constant) and v.value is False:
+        gf_ = q.cfg_of(f_); n_ = q.enclosing_stmt_node(gf_, s_); fs_ = q.fact_strs(gf_, n_) if n_ is not None else []
+        good = any(f.startswith('len(self._dataForConnection) == 0') or f == 'self._dataForConnection:falsy' for f in fs_)
+        ctx.ob('R-DOM', f_, "`sending` is cleared only when nothing is queued for any connection", good, "guarded by an empty map" if good else
+               "%s clears the global `sending` flag although other connections may still have bytes queued: their next send() takes the direct path and overtakes the queued bytes - the stream is reordered" % f_.qual, (mod, s_), 'D4')
   g = q.cfg_of(drun)
   clr = [q.enclosing_stmt_node(g, s_) for t, v, s_, k in q.stores_in(drun.node) if norm(t) == 'self.sending' and isinstance(v, ast.Constant) and v.value is False]
   for c in clr:
